@@ -288,6 +288,39 @@ def check(model, rep, tier):
               witness='a nested def with a bracket continuation line indented '
               'less than the def')
   rep.unit('line slices on source text', n_sl)
+  # the lines that are cut and the lines of the re-generated text are paired by
+  # position: both must be lines of the *same* text (same definition of the
+  # variable that was tokenised)
+  toks = [c for c in ast.walk(db.node) if isinstance(c, ast.Call) and core.dotted(c.func) in (
+      'tokenize.generate_tokens', 'tokenize.tokenize')]
+  src_tok = None
+  for c in toks:
+    for x in ast.walk(c):
+      if isinstance(x, ast.Call) and core.dotted(x.func) in ('io.StringIO', 'StringIO') \
+          and x.args and isinstance(x.args[0], ast.Name):
+        src_tok = x.args[0]
+  pairs = []
+  for lp_ in ast.walk(db.node):
+    if isinstance(lp_, ast.For) and isinstance(lp_.iter, ast.Call) and core.dotted(
+        lp_.iter.func) == 'zip' and len(lp_.iter.args) == 2:
+      for a_ in lp_.iter.args:
+        if isinstance(a_, ast.Call) and isinstance(a_.func, ast.Attribute) and \
+            a_.func.attr in ('split', 'splitlines') and isinstance(a_.func.value, ast.Name):
+          pairs.append(a_.func.value)
+  same = None
+  if src_tok is not None and pairs:
+    d_tok = rd.reaching(src_tok, src_tok.id)
+    same = any(x.id == src_tok.id and rd.reaching(x, x.id) == d_tok and d_tok is not None
+               for x in pairs)
+  if toks and pairs:
+    rep.check(bool(same), 'SRC-SLICE', '%s:paired-lines-of-one-text' % db.site,
+              'the original lines are paired by position with the lines of the '
+              're-generated token text: both must come from the same text (the one '
+              'that was tokenised); a text changed in between (continuations '
+              'unfolded) has a different number of lines',
+              {'tokenised': core.norm(src_tok) if src_tok is not None else None,
+               'paired': [core.norm(x) for x in pairs]}, line=db.node.lineno,
+              witness='a string literal containing backslash-newline in an indented def')
 
   # ---------------------------------------------------------------- SRC-LAMBDA
   g = pycfg.CFG(pl.node)
